@@ -331,6 +331,10 @@ func vNameStartByte(c byte) bool {
 //@   modifies tk.pos
 //@   ensures old(tk.pos) <= tk.pos
 //@   ensures !result1 ==> tk.pos == old(tk.pos)
+// CSS Syntax 3 §4.3.1 (U+0023): a hash token starts only at a name code point or a VALID escape: `#` followed by a
+// backslash and a newline is the delimiter `#`
+//@   ensures[no-hash-from-an-invalid-escape] old(tk.pos) + 1 < len(tk.src) && tk.src[old(tk.pos)] == '\\' && tk.src[old(tk.pos)+1] == '\n' ==> !result1
+//@   ensures[hash-from-a-valid-escape] old(tk.pos) < len(tk.src) && tk.src[old(tk.pos)] == '\\' && !(old(tk.pos) + 1 < len(tk.src) && tk.src[old(tk.pos)+1] == '\n') ==> result1
 
 //@ func (*tokenizer).consumeDelimOrLitteral
 //@   props C06 C07 C01
@@ -837,6 +841,12 @@ func vBadPairsCoverTable() (int, []string) {
 //@   nopanic
 //@   modifies nothing
 //@   requires value != "" && forall(i, 0, len(value), value[i] != 0)
+// CSS Syntax 3 §4.3.7: a hexadecimal escape ends at ONE following white space, which is why the serializer writes
+// that space after the escapes of a leading newline, carriage return, form feed or digit: without it a following
+// hex digit would be read into the escape and a following space swallowed
+//@   assert after suffix#2: c == '\n' && suffix == "\\A "
+//@   assert after suffix#3: c == '\r' && suffix == "\\D "
+//@   assert after suffix#4: c == '\f' && suffix == "\\C "
 
 // an at-rule is written as a statement (`@name prelude;`) only when it HAS no block: a block, even an
 // empty one (`@page {}`), is written as a block (CSS Syntax 3 §9, "consume an at-rule" keeps the two apart)
